@@ -22,10 +22,14 @@ IMPORTS = ("From Coq Require Import NArith List.\nFrom Ka Require Import Model.L
            "Import ListNotations.\nOpen Scope string_scope.\nOpen Scope N_scope.\n")
 
 ALPHABET = list("019aexbtoinAFd.-+<=!\"#\\ \t€²é@_|±μ")
-RED1 = list("01ebx.-+=!\"\\ #to")          # numbers, strings, operators
-RED2 = list("into a1_é€<=.sμ")               # keywords / identifiers
+RED1 = list("01ebx.-+\"\\ #=F")          # numbers, strings (thorough; quick uses the first 12)
+RED2 = list("into 1_é.μa€")               # keywords / identifiers (thorough; quick uses the first 10)
 WS = [" ", "\t", "\n", "\u00a0", "\u2003", "\x1c", "\r"]
+IDENT_START = set("abcdefghijklmnopqrstuvwxyzABCDEFGHIJKLMNOPQRSTUVWXYZμ€$£¥")
 IDENT_CHARS = set("abcdefghijklmnopqrstuvwxyzABCDEFGHIJKLMNOPQRSTUVWXYZ0123456789_μ€$£¥")
+
+ERR_SHORT = {"UnknownTokenError": "U", "BadNumberError": "B", "UnclosedStringError": "S", "UnclosedInstantError": "H"}
+ERR_LONG = {v: k for k, v in ERR_SHORT.items()}
 
 REGRESSION = ["1.23457e+06", "1.5e999", "1..5", "0x1F", "0b102", "int", "in t", "\"abc", "#2024",
               "0b0b1", "0b0B1", "0x0b1", "15.0e308", "0.0e309", "1.5e308", "1.5e-999", "1...", "1. .5", "1 ..5",
@@ -76,7 +80,7 @@ def impl_line(s, T):
     try:
         toks = T.tokenise(s)
     except (T.UnknownTokenError, T.BadNumberError, T.UnclosedStringError, T.UnclosedInstantError) as e:
-        return "E %s %d" % (type(e).__name__, e.index), None, e
+        return "E %s %d" % (ERR_SHORT[type(e).__name__], e.index), None, e
     except C.CaseTimeout:
         raise
     except BaseException as e:
@@ -388,6 +392,7 @@ def impl_execute(s):
         r["status"] = None
     r["out"], r["err"] = o.getvalue(), e.getvalue()
     if exc is not None and hasattr(exc, "index"):
+        r["cls"] = type(exc).__name__
         msg = {"UnknownTokenError": "Unknown token!", "BadNumberError": "Bad number! (Probably mixing number bases).",
                "UnclosedStringError": "String is missing closing delimiter.",
                "UnclosedInstantError": "Instant/date is missing closing delimiter."}[type(exc).__name__]
@@ -510,6 +515,7 @@ def check_classes(consts):
         sp, al, nu = c.isspace(), c.isalpha(), c.isnumeric()
         ok = ((not sp or (c not in sig and not al and not nu))
               and (c not in letters or al)
+              and (c not in IDENT_START or not nu)
               and (not (c in sig and al) or c in IDENT_CHARS)
               and (c not in "0123456789" or nu)
               and (c != "." or not nu))
@@ -524,6 +530,11 @@ def coq_text(s):
 
 def run(ctx):
     rep, tier, seed = ctx["report"], ctx["tier"], ctx["seed"]
+    import time
+    T0 = time.time()
+
+    def lap(what):
+        C.log("  [c11] %-28s %.1fs" % (what, time.time() - T0))
     rng = random.Random(seed * 104729 + 11)
     sys.path.insert(0, C.SRC)
     d = json.load(open(C.BUILD + "/dump.json"))
@@ -543,13 +554,15 @@ def run(ctx):
             for b in reps:
                 explicit.append(("pairs", a + b))
                 explicit.append(("pairs", a + " " + b))
-        n_rand = 12000 if quick else 150000
+        n_rand = 8000 if quick else 120000
         for _ in range(n_rand):
             explicit.append(("random", rand_sequence(rng, consts)))
         L_full, L_red = (3, 4) if quick else (4, 5)
+        red1 = RED1[:12] if quick else RED1
+        red2 = RED2[:10] if quick else RED2
         idx_jobs = [("full", ALPHABET, 0, count_upto(len(ALPHABET), L_full)),
-                    ("red1", RED1, count_upto(len(RED1), L_full), count_upto(len(RED1), L_red)),
-                    ("red2", RED2, count_upto(len(RED2), L_full), count_upto(len(RED2), L_red))]
+                    ("red1", red1, count_upto(len(red1), L_full), count_upto(len(red1), L_red)),
+                    ("red2", red2, count_upto(len(red2), L_full), count_upto(len(red2), L_red))]
     seen = set()
     ex = []
     for fam, s in explicit:
@@ -564,6 +577,7 @@ def run(ctx):
                       "CPython's isspace/isalpha/isnumeric violate Lexer.class_ok_b on code points %r: the theorems' hypothesis does not hold" % bad_cps[:8],
                       dict(code_points=bad_cps[:50]), found_input=False)
 
+    lap("cases+class check")
     # ---------------- implementation
     SH = 4000
     jobs = []
@@ -577,6 +591,7 @@ def run(ctx):
     if any(r.get("hung") for r in res):
         raise RuntimeError("an implementation shard hung")
 
+    lap("implementation shards")
     # ---------------- model
     try:   # a shard's output is one long Coq string: give coqc a deep stack
         import resource
@@ -589,16 +604,21 @@ def run(ctx):
         cps = sorted(ord(c) for c in used)
         tbl = lambda f: "[" + ";".join(str(c) for c in cps if f(chr(c))) + "]"
         extra = ("Definition T_space : list N := %s.\nDefinition T_alpha : list N := %s.\nDefinition T_num : list N := %s.\n"
-                 "Definition lex (s : list N) : string := show_lres (ka_tokenise (in_table T_space) (in_table T_alpha) (in_table T_num) s).\n"
+                 "Definition lex (s : list N) : string := show_lres_short (ka_tokenise (in_table T_space) (in_table T_alpha) (in_table T_num) s).\n"
                  % (tbl(str.isspace), tbl(str.isalpha), tbl(str.isnumeric)))
+        tasks = []
         for name, alpha, lo, hi in idx_jobs:
             ex2 = extra + "Definition ALPHA : list N := %s.\nDefinition lexn (n : N) : string := lex (nth_string 12 ALPHA %d n).\n" % (coq_text("".join(alpha)), len(alpha))
-            outs = C.run_model(ctx["rundir"], "c11" + name, IMPORTS, "lexn", [str(n) for n in range(lo, hi)],
-                               shard=SH, extra_defs=ex2, case_type="N")
-            model_lines[name] = outs
-        outs = C.run_model(ctx["rundir"], "c11ex", IMPORTS, "lex", [coq_text(s) for s in ex_strs], shard=2000,
-                           extra_defs=extra, case_type="list N")
-        model_lines["explicit"] = outs
+            tasks.append((name, "c11" + name, "lexn", [str(n) for n in range(lo, hi)], SH, ex2, "N"))
+        tasks.append(("explicit", "c11ex", "lex", [coq_text(s) for s in ex_strs], 1000, extra, "list N"))
+
+        def go(t):
+            name, tag, show, terms, shard, ex2, ct = t
+            return name, C.run_model(ctx["rundir"], tag, IMPORTS, show, terms, shard=shard, extra_defs=ex2, case_type=ct)
+        from concurrent.futures import ThreadPoolExecutor
+        with ThreadPoolExecutor(len(tasks)) as pool:
+            for name, outs in pool.map(go, tasks):
+                model_lines[name] = outs
         # the class hypothesis on the instantiated tables, for every character used
         chk = C.run_model(ctx["rundir"], "c11cls", IMPORTS,
                           "fun c => if class_ok_b (in_table T_space) (in_table T_alpha) (in_table T_num) gen_ctoks c then \"1\" else \"0\"",
@@ -607,6 +627,7 @@ def run(ctx):
             rep.violation(dict(kind="class-hypothesis-tables"), "class_ok_b fails on the instantiated tables",
                           dict(code_points=[c for c, x in zip(cps, chk) if x != "1"][:20]), found_input=False)
 
+    lap("model shards")
     # ---------------- compare
     stats = dict(ok=0, err=0, tokens=0, ws_checks=0, numbers=0)
     fam_count = {}
@@ -647,6 +668,7 @@ def run(ctx):
                     continue            # already reported as a failure of the property itself
                 pending.append((s, il, m))
 
+    lap("compare")
     # ---------------- disagreements whose whole-input result passes the relations: the deviation may be
     # hidden behind a later error; look for a piece of the input on which a relation fails
     if pending:
@@ -679,11 +701,12 @@ def run(ctx):
 
     # ---------------- regression expectations (property level, stated directly)
     import importlib
-    expect = {"1.23457e+06": "K N,0,11,X:0x1.2d68a00000000p+20", "1.5e999": "E BadNumberError 0",
-              "1..5": "K N,0,1,I:1 C0,1,3,- N,3,4,I:5", "0x1F": "K N,0,4,I:31", "0b102": "E BadNumberError 0",
+    expect = {"1.23457e+06": "K N,0,11,X:0x1.2d68a00000000p+20", "1.5e999": "E B 0",
+              "1..5": "K N,0,1,I:1 C0,1,3,- N,3,4,I:5", "0x1F": "K N,0,4,I:31", "0b102": "E B 0",
               "int": "K V,0,3,T:105.110.116", "in t": "K C%d,0,2,- V,3,4,T:116" % consts.index("in"),
-              "\"abc": "E UnclosedStringError 0", "#2024": "E UnclosedInstantError 0",
-              "0b0b1": "E BadNumberError 0", "15.0e308": "E BadNumberError 0"}
+              "\"abc": "E S 0", "#2024": "E H 0",
+              "0b0b1": "E B 0", "0b0B1": "E B 0", "15.0e308": "E B 0", "0.0001e310": "K N,0,10,X:0x1.6c8e5ca239029p+1016",
+              "instant": "K V,0,7,T:105.110.115.116.97.110.116", "0.0e309": "K N,0,7,X:0x0.0p+0"}
     reg_lines = dict(zip(ex_strs, itertools.chain.from_iterable(r["lines"] for j, r in zip(jobs, res) if j["kind"] == "list")))
     for s, e in expect.items():
         got = reg_lines.get(s)
@@ -691,6 +714,7 @@ def run(ctx):
             rep.violation(dict(kind="regression", input=s), "regression input %r lexes as %s, expected %s" % (s, got, e),
                           dict(input=s, impl=got, expected=e))
 
+    lap("shrink+regression")
     # ---------------- through execute()
     sub = [s for s in REGRESSION] + [s for f, s in explicit if f == "random"][: (300 if quick else 3000)]
     if ctx.get("replay"):
@@ -703,15 +727,16 @@ def run(ctx):
         if "expect_err" in r:
             n_exec_err += 1
             if r.get("status") != 1 or r.get("err") != r["expect_err"] or r.get("out"):
-                rep.violation(dict(kind="execute-lexical-error", cls=r["line"].split(" ")[1]),
+                rep.violation(dict(kind="execute-lexical-error", cls=r.get("cls")),
                               "execute(%r): tokenise gives %s but execute() reports status %r, stderr %r" % (r["s"], r["line"], r.get("status"), r.get("err")),
                               dict(input=r["s"], impl=r))
+    lap("execute lane")
     total = sum(fam_count.values())
     rep.coverage.update(dict(
         evaluations=total, distinct_nontrivial=nontrivial,
         rule="distinct input strings; non-trivial = lexes to at least one token or raises a lexical error. Exhaustive: all strings of length <= %d over the %d-symbol alphabet %r, lengths %d..%d over the reduced alphabets %r and %r; all ordered pairs of %d representative lexemes with and without a space; %d seeded random token sequences with random whitespace; %d regression inputs"
              % (L_full if not ctx.get("replay") else 0, len(ALPHABET), "".join(ALPHABET), (L_full + 1) if not ctx.get("replay") else 0, L_red if not ctx.get("replay") else 0,
-                "".join(RED1), "".join(RED2), len(representative_lexemes(consts)), fam_count.get("explicit", 0), len(REGRESSION)),
+                "".join(RED1[:12] if quick else RED1), "".join(RED2[:10] if quick else RED2), len(representative_lexemes(consts)), fam_count.get("explicit", 0), len(REGRESSION)),
         exhaustive=True, samples=samples, families=fam_count, lexed_ok=stats["ok"], lexical_errors=stats["err"],
         tokens_checked=stats["tokens"], number_literals_checked=stats["numbers"], whitespace_insertions=stats["ws_checks"],
         traces_validated_against_impl=total if ctx["model_ok"] else 0, disagreements=disagreements,
